@@ -370,7 +370,17 @@ func getHandler(env *lisp.LEnv, in *lisp.LVal, name string, constraints []*lisp.
 					"Bad input type: an ordinary function is not usable as a constraint (%v). Constraints must be built by the s package (s:int, s:has-key, s:gt, ...) or by libschema.NewValidator.",
 					in)
 			}
-			return in
+			if len(constraints) == 0 {
+				return in
+			}
+			// A type that is itself a validator (a named type, a nested
+			// validator) narrowed by further constraints: the value must
+			// pass the type AND every constraint.  Returning the type alone
+			// dropped the constraints - malformed ones included - silently.
+			if lerr := checkConstraints(constraints); lerr != nil {
+				return lerr
+			}
+			return builtinCheckAny(env, append([]*lisp.LVal{in}, constraints...))
 		}
 		res = lisp.ErrorConditionf(BadArgs, "Bad input type: %s is not usable as a constraint (%v)", in.Type.String(), in)
 	}
